@@ -1,7 +1,7 @@
 (* Wire.v -- one generic wire format (nested lists of integers) shared by the
    in-Coq evaluation path (gen/Cases_*.v) and the extracted OCaml driver, with
    decoders for the model's inputs and encoders for its outputs.  Definitions only. *)
-From NasimV Require Export Monitors.
+From NasimV Require Export Monitors Format.
 
 Inductive sx := I (z : Z) | L (l : list sx).
 
@@ -165,5 +165,55 @@ Definition x_action (a : action) : sx :=
                           | KExploit => 4 | KPrivesc => 5 | KNoop => 6 end);
      x_addr (a_tgt a); I (a_cost a); I (a_pz a); x_nat (a_req a); x_nat (a_srv a); x_nat (a_proc a);
      x_opt x_nat (a_os a); x_nat (a_acc a)].
+
+(* ---------- scenario files ---------- *)
+Fixpoint d_yv (s : sx) : option yv :=
+  match s with
+  | L [I 0] => Some YNull
+  | L [I 1; I z] => Some (YInt z)
+  | L [I 2; I f] => Some (YFloat f)
+  | L [I 3; I n] => if n <? 0 then None else Some (YStr (Z.to_nat n))
+  | L [I 4; I sp; I a; I b] => if sp <? 0 then None else Some (YAddr (Z.to_nat sp) a b)
+  | L [I 5; L items] =>
+      option_map YList
+        ((fix go (l : list sx) : option (list yv) :=
+            match l with
+            | [] => Some []
+            | x :: r => match d_yv x, go r with Some y, Some ys => Some (y :: ys) | _, _ => None end
+            end) items)
+  | L [I 6; L items] =>
+      option_map YMap
+        ((fix go (l : list sx) : option (list (yv * yv)) :=
+            match l with
+            | [] => Some []
+            | L [k; v] :: r =>
+                match d_yv k, d_yv v, go r with
+                | Some k', Some v', Some ys => Some ((k', v') :: ys)
+                | _, _, _ => None
+                end
+            | _ => None
+            end) items)
+  | _ => None
+  end.
+
+Definition x_edef (e : edef) : sx :=
+  L [x_nat (e_srv e); x_opt x_nat (e_os e); I (e_pz e); I (e_cost e); x_nat (e_acc e)].
+Definition x_pdef (p : pdef) : sx :=
+  L [x_nat (p_proc p); x_opt x_nat (p_os p); I (p_pz p); I (p_cost p); x_nat (p_acc p)].
+Definition x_fw (l : list (addr * list nat)) : sx :=
+  x_list (fun e => L [x_addr (fst e); x_list x_nat (snd e)]) l.
+Definition x_cfg (c : hostcfg) : sx :=
+  L [x_list x_bool (c_os c); x_list x_bool (c_srv c); x_list x_bool (c_proc c);
+     I (c_val c); I (c_dval c); x_fw (c_fw c)].
+Definition x_scenario (sc : scenario) : sx :=
+  L [x_list x_nat (s_subnets sc); x_list (x_list x_bool) (s_topo sc);
+     x_nat (s_nos sc); x_nat (s_nsrv sc); x_nat (s_nproc sc);
+     x_list x_edef (s_exploits sc); x_list x_pdef (s_privescs sc);
+     L [I (s_ssc sc); I (s_osc sc); I (s_subc sc); I (s_psc sc)];
+     x_fw (s_fw sc);
+     x_list (fun e => L [x_addr (fst e); x_cfg (snd e)]) (s_hosts sc);
+     x_list (fun e => L [x_addr (fst e); I (snd e)]) (s_sens sc);
+     x_opt x_nat (s_limit sc);
+     L [x_nat (fst (s_bounds sc)); x_nat (snd (s_bounds sc))]].
 
 Definition bad : sx := L [I (-1)].
